@@ -122,7 +122,7 @@ func roundTrip(v reflect.Value) (o outcome) {
 	if err != nil {
 		return outcome{"unmarshal-error", fmt.Sprintf("Unmarshal(%x): %v", trb(b), err)}
 	}
-	if ok, d := ptypes.Equal(v, out.Elem()); !ok {
+	if ok, d := ptypes.EqualSign(v, out.Elem()); !ok {
 		return outcome{"value-diff", fmt.Sprintf("bytes %x: %s", trb(b), d)}
 	}
 	// the same clauses when the message is passed by pointer (the bytes may differ: a pointer
@@ -147,7 +147,7 @@ func roundTrip(v reflect.Value) (o outcome) {
 		if err != nil {
 			return outcome{"by-pointer-unmarshal-error", fmt.Sprintf("Unmarshal(Marshal(&v)=%x): %v", trb(bp), err)}
 		}
-		if ok, d := ptypes.Equal(v, out2.Elem()); !ok {
+		if ok, d := ptypes.EqualSign(v, out2.Elem()); !ok {
 			return outcome{"by-pointer-value-diff", fmt.Sprintf("bytes %x: %s", trb(bp), d)}
 		}
 	}
